@@ -14,6 +14,7 @@ package vrt
 import (
 	"fmt"
 	"runtime"
+	"strings"
 	"unsafe"
 )
 
@@ -562,6 +563,11 @@ func Go(fn func()) {
 	GoNamed("", fn)
 }
 
+// SystemPrefix marks threads that stand in for machinery which, in a real program, is not a goroutine of
+// the code under test (the runtime's timer behind a context deadline): LiveOthers / DescribeLive - "which
+// goroutines did this call leave behind" - do not count them. They are scheduled like any other thread.
+const SystemPrefix = "sys:"
+
 //go:norace
 func GoNamed(name string, fn func()) {
 	t := Enter()
@@ -677,7 +683,7 @@ func LiveOthers() int {
 	}
 	n := 0
 	for i := 0; i < S.nthreads; i++ {
-		if &S.threads[i] != t && S.threads[i].state == tsLive {
+		if &S.threads[i] != t && S.threads[i].state == tsLive && !strings.HasPrefix(S.threads[i].Name, SystemPrefix) {
 			n++
 		}
 	}
@@ -696,7 +702,7 @@ func DescribeLive() string {
 	out := ""
 	for i := 0; i < S.nthreads; i++ {
 		o := &S.threads[i]
-		if o != t && o.state == tsLive {
+		if o != t && o.state == tsLive && !strings.HasPrefix(o.Name, SystemPrefix) {
 			out += fmt.Sprintf("thread %d(%s) at %s %s; ", o.ID, o.Name, o.op, o.label)
 		}
 	}
